@@ -17,6 +17,17 @@ CLAIMED = {
             "table width (R3); carry/signed-carry/signed-borrow conditions equal the P-Code truth tables (R4); each arm is the apint primitive of its mnemonic with P-Code operand "
             "order (R5); operator traits delegate correctly (R6). A violated clause is a wrong folded value for some operand pair; the numeric behaviour of apint itself is trusted.",
             "3/C01", "apint::Int::is_positive == !is_negative (sign bit unset), read from apint 0.2 source"),
+    "C10": ("slot coverage derived from the Def/Jmp type definitions; gen/kill analysis of retain predicates (closure parameters, upvars) with sibling cross-check of the two transfer functions; match-table and path-condition polarity checks",
+            "Decides the dataflow side conditions of the optimising passes: liveness makes every Expression slot of Def/Jmp alive and kills before it gens (R1); only Assign is deleted, only when "
+            "not alive, iterating backwards (R2); both expression-propagation transfer functions kill, for Assign and Load, the entry keyed by the defined variable and all entries mentioning it, "
+            "and reset at calls/returns (R3); control-flow propagation retargets call returns without known conditions, invalidates the precondition for every defining variant, keeps edge-condition "
+            "polarity and never bypasses blocks with defs (R4). Each clause is necessary for behaviour preservation; semantic equivalence and the algebraic rewrites are not decided.",
+            "3/C10", ""),
+    "C17": ("match table over graph::Edge vs. the set of function-leaving edge kinds; path conditions of warning sites evaluated as a truth table over atoms; provenance of query arguments; panic-site audit against CFG construction facts",
+            "Decides the traversal and decision tables of the reachability checkers: followed edge kinds (R1), sink/source tests and visited guard (R2), CWE367 start node and pair order, CWE243 "
+            "warn-decision truth table over (chdir imported, successor exists, chdir reachable, calls chdir+privilege drop) (R3), and totality: no first-neighbour unwrap on BlkEnd nodes (R4). "
+            "The set of warnings for a concrete program is not decided.",
+            "3/C17", ""),
     "C19": ("THIR condition extraction + symbolic normalisation; one-sided/inclusive boundary comparison rule with sibling cross-check; flag/name agreement; constructor field provenance",
             "Decides boundary, flag and byte-order agreement of the global-memory queries: every containment test of a point against a segment is `base <= p < base+len` (R1), "
             "read() yields unknown content exactly under write_flag and the *_writeable/*_readable queries return the like-named flag (R2), bytes are reversed iff little endian and "
